@@ -20,6 +20,7 @@ The whole-fragment types come from the specification tables of `Spec/MsSpecTypes
 -/
 import MsVerif.Model.Ast
 import MsVerif.Spec.MsSpecTypes
+import MsVerif.Spec.SatTable
 
 namespace MsVerif.Spec
 open MsVerif
@@ -260,6 +261,18 @@ def hasDefect_multipath (F : Facts) (ms : Ms) : Bool :=
   match ls with
   | [] => false
   | n :: rest => !rest.all (· == n)
+
+/-- `allow_unsatisfiable`: the script has no satisfaction at all — the specification's table of
+canonical satisfactions (Spec/SatTable.lean) finds none even when every signature, preimage,
+raw key and lock is available -/
+def allAvail : SatTable.Avail := ⟨fun _ => true, fun _ _ => true, fun _ => true, fun _ => true,
+  fun _ => true, fun _ => true⟩
+def hasDefect_unsatisfiable (ms : Ms) : Bool := !SatTable.satEx allAvail ms
+
+/-- a taproot output's script tree: BIP 341 allows leaf depths up to 128, every leaf is a
+tapscript -/
+def tapTreeOK (F : Facts) (depths : List Nat) (leaves : List Ms) : Bool :=
+  depths.all (fun d => decide (d ≤ 128)) && leaves.all (ctxOK F .tap)
 
 /-! ### mixed time locks: some way of satisfying the script needs both units of one lock -/
 
